@@ -12,6 +12,7 @@ import IxpeVerif.Model.Kislat
 import IxpeVerif.Model.Polarization
 import IxpeVerif.Model.Ephemeris
 import IxpeVerif.Model.Additivity
+import IxpeVerif.Model.Sampler
 /-! Dispatcher of the hand-written models for the line-protocol driver.  Integers travel in decimal. -/
 namespace Driver
 
@@ -103,6 +104,10 @@ def chunks {β : Type} (n : Nat) : Nat → List β → List (List β)
 
 /-- transpose files × bins -> bins × files -/
 def column {β : Type} (files : List (List β)) (j : Nat) : List β := files.filterMap fun f => f[j]?
+
+def fpairs : List Int → List (Float × Float)
+  | a :: b :: rest => (fbits a, fbits b) :: fpairs rest
+  | _ => []
 
 def rowsOf : List Int → List EvL.Row
   | t :: s :: f :: g :: rest => ⟨t, s, f != 0, g.toNat⟩ :: rowsOf rest
@@ -239,6 +244,14 @@ def step (ws : List String) : String :=
       | [] => "none"
       | b :: bs => let r := bs.foldl Add.lcIadd b; showFs [r.counts, r.exposure, r.error]
     " | ".intercalate outs
+  -- sampler <2n> (x pdf)… <m> u… <k> x…  -> ppf(u)… | cdf(x)… | negative flag | ppf nodes
+  | "sampler" :: rest =>
+    let (nd, rest) := takeN rest
+    let (us, rest) := takeN rest
+    let (xs, _) := takeN rest
+    let nodes := fpairs (ints nd)
+    showFs ((ints us).map fun u => Sampler.ppf nodes (fbits u)) ++ " | " ++ showFs ((ints xs).map fun x => Sampler.cdf nodes (fbits x)) ++ " | " ++
+      (if Sampler.negative nodes then "1" else "0") ++ " | " ++ showFs ((Sampler.ppfNodes nodes).flatMap fun p => [p.1, p.2])
   | ["pikey", pi] => showInts [piKey pi.toInt!]
   | ["split", t] => let r := EvL.splitTime t.toInt!; showInts [r.1, r.2]
   | _ => "bad-op"
